@@ -65,6 +65,83 @@ Proof. vm_compute. reflexivity. Qed.
     hypothesis [v_tables_listed] of the partial theorem is an invariant. *)
 Definition C19_sizes_sum_after_every_history := reachable_sizes_sum.
 
+(** ** Relation worlds, every figure of the vector, histories, Shrink (Proofs/StatsProofs.v).
+
+    For every state satisfying the relation invariant [St2]: *)
+From Ark Require Import Proofs.Rel2Defs Proofs.Rel2Maint Proofs.Rel2Hist Proofs.Rel2HistQ Proofs.Rel2HistQL Proofs.StatsProofs.
+From Ark Require Proofs.ObsProofs Proofs.ObsSpec.
+
+(** used = rows of all tables = rows of the non-free tables; total = used + recycled (WF suffices). *)
+Definition C19_rel_used_equals_rows := used_equals_rows2.
+Definition C19_rel_total_is_used_plus_recycled := total_is_used_plus_recycled_WF.
+(** every table is in exactly one of the two lists of exactly its archetype; free tables are empty. *)
+Definition C19_rel_table_in_one_list := sp_table_place.
+Definition C19_rel_lists_partition := sp_lists_partition.
+Definition C19_rel_archetype_lists := sp_arch_lists_perm.
+(** a full query counts a live entity once, a dead one never. *)
+Definition C19_rel_live_counted_once := live_counted_once2.
+Definition C19_rel_dead_counted_zero := dead_counted_zero2.
+(** the live entities as a duplicate-free list whose length is the used figure. *)
+Definition C19_live_rows := (sp_live_rows_NoDup, sp_live_rows_length, sp_live_rows_in).
+(** shape of the vector; what each header figure and each archetype block is. *)
+Definition C19_vector_shape := stats_vec_shape.
+Definition C19_header_meaning := sp_header_meaning.
+Definition C19_block_meaning := sp_arch_block_meaning.
+Definition C19_table_counts := stats_table_counts.
+Definition C19_block_size_live := stats_block_size_live.
+Definition C19_rel_sizes_sum := stats_sizes_sum2.
+Definition C19_rel_sizes_sum_fold := stats_sizes_sum2_C19.
+Definition C19_rel_caps_sum := stats_caps_sum2.
+Definition C19_size_le_capacity_block := stats_size_le_cap2.
+Definition C19_recycled_meaning := stats_recycled_meaning.
+Definition C19_filters_meaning := stats_filters_meaning.
+(** the observer figure under the manager invariant, over manager histories; refuted for raw histories. *)
+Definition C19_observers_registered := stats_observers_registered.
+Definition C19_observers_after_every_obs_history := stats_observers_after_every_obs_history.
+Definition C19_observers_registered_refuted := stats_observers_registered_refuted.
+Definition C19_observers_registered_needs_MInv := stats_observers_registered_needs_MInv.
+(** Stats is total and read-only; Shrink under every clock keeps the stable part of the vector. *)
+Definition C19_stats_total_readonly := stats_total_readonly.
+Definition C19_stats_step := stats_step.
+Definition C19_shrink_every_clock := stats_shrink_clock.
+Definition C19_shrink_tables_exact := stats_shrink_tables_exact.
+Definition C19_shrink_op := stats_shrink_op.
+(** over histories: relation tier (Rel2HistQ histories, locked states included) ... *)
+Definition C19_rel_used_after_every_history := C19r_used_after_every_history.
+Definition C19_rel_counted_once_after_every_history := C19r_counted_once_after_every_history.
+Definition C19_rel_tables_after_every_history := C19r_tables_after_every_history.
+Definition C19_rel_sizes_sum_after_every_history := C19r_sizes_sum_after_every_history.
+Definition C19_rel_header_after_every_history := C19r_header_after_every_history.
+Definition C19_rel_block_after_every_history := C19r_block_after_every_history.
+Definition C19_rel_block_size_after_every_history := C19r_block_size_after_every_history.
+Definition C19_rel_stats_after_every_history := C19r_stats_after_every_history.
+Definition C19_rel_shrink_after_every_history := C19r_shrink_after_every_history.
+Definition C19_rel_no_observers_after_every_history := reachable_quiet_obs.
+(** ... and Tier 1 (StorageD histories with observers, filters, registration, queries). *)
+Definition C19_t1_block_after_every_history := C19t_block_after_every_history.
+Definition C19_t1_tables_after_every_history := C19t_tables_after_every_history.
+Definition C19_t1_used_after_every_history := C19t_used_after_every_history.
+Definition C19_t1_header_after_every_history := C19t_header_after_every_history.
+
+(** Non-vacuity: a relation world with three archetypes, a freed relation table, a registered filter and an
+    open query; its vector. *)
+Example C19_rel_stats_vector :
+  stats_vec sp_world =
+    [4; 6; 2; 1; 1; 0; 3;  0; 0; 0; 1; 2; 1;  1; 2;  2; 1; 1; 2; 5; 2;  0; 1;  2; 2;  1; 0; 0; 1; 2; 1;  1; 2]%Z.
+Proof. exact (proj1 sp_world_vector). Qed.
+
 Definition C19_all := (C19_sizes_sum_after_every_history, C19_used_equals_rows, C19_total_is_used_plus_recycled, C19_size_le_capacity,
-  C19_archetypes_distinct, C19_archetype_sizes_le_rows, C19_archetype_sizes_sum_partial).
+  C19_archetypes_distinct, C19_archetype_sizes_le_rows, C19_archetype_sizes_sum_partial,
+  C19_rel_used_equals_rows, C19_rel_total_is_used_plus_recycled, C19_rel_table_in_one_list, C19_rel_lists_partition,
+  C19_rel_archetype_lists, C19_rel_live_counted_once, C19_rel_dead_counted_zero, C19_live_rows,
+  C19_vector_shape, C19_header_meaning, C19_block_meaning, C19_table_counts, C19_block_size_live, C19_rel_sizes_sum, C19_rel_sizes_sum_fold,
+  C19_rel_caps_sum, C19_size_le_capacity_block, C19_recycled_meaning, C19_filters_meaning,
+  C19_observers_registered, C19_observers_after_every_obs_history, C19_observers_registered_refuted,
+  C19_observers_registered_needs_MInv,
+  C19_stats_total_readonly, C19_stats_step, C19_shrink_every_clock, C19_shrink_tables_exact, C19_shrink_op,
+  C19_rel_used_after_every_history, C19_rel_counted_once_after_every_history, C19_rel_tables_after_every_history,
+  C19_rel_sizes_sum_after_every_history, C19_rel_header_after_every_history, C19_rel_block_after_every_history,
+  C19_rel_block_size_after_every_history, C19_rel_stats_after_every_history, C19_rel_shrink_after_every_history, C19_rel_no_observers_after_every_history,
+  C19_t1_block_after_every_history, C19_t1_tables_after_every_history, C19_t1_used_after_every_history,
+  C19_t1_header_after_every_history, C19_rel_stats_vector).
 Print Assumptions C19_all.
